@@ -150,6 +150,48 @@ def run(tier: str, seed: int) -> int:
         if a["code"] != b["code"]:
             failures.append({"what": f"{call} returns {value!r} in Python, but the program is not compiled like the program with that literal (position '{pos}')", "src": with_call, "src_literal": with_lit,
                              "opts": opts, "code": a["code"], "code_literal": b["code"]})
+    # -- library modules: a constexpr function of a library with the SAME NAME as one of the main file; both are called ----------------
+    n_lib = 16 if tier == "quick" else 1000
+    done = tries = 0
+    while done < n_lib and tries < n_lib * 4:
+        tries += 1
+        fdef1, call, params, body1 = make(r)
+        fdef2, _, params2, body2 = make(r)
+        if params2 != params or body2 == body1:
+            continue
+        try:
+            v1 = expected_value(fdef1.replace("@constexpr\n", ""), call)
+            v2 = expected_value(fdef2.replace("@constexpr\n", ""), call)
+        except Exception:
+            continue
+        if any(isinstance(v, bool) or not isinstance(v, (int, float)) or (isinstance(v, float) and (v != v or abs(v) > 1e15)) for v in (v1, v2)) or v1 == v2:
+            continue
+        form = r.choice(["main_first", "lib_first", "in_func"])
+        if form == "main_first":
+            body = "db.Setting = {A}\ndb.On = {B}\n"
+        elif form == "lib_first":
+            body = "db.On = {B}\ndb.Setting = {A} + 1\n"
+        else:
+            body = "def f(p):\n    db.Setting = p + {A}\n    db.On = {B}\nf(db.Mode)\nf(2)\n"
+        with_call = {"": "from library import m\n" + fdef1 + body.replace("{A}", call).replace("{B}", "m." + call), "m": fdef2}
+        with_lit = body.replace("{A}", repr(v1)).replace("{B}", repr(v2))
+        opts = whole.default_opts(append_version=False, inline_functions=r.random() < 0.5)
+        a = whole.compile_any(with_call, opts)
+        if "error" in a and "Timeout during evaluating constexpr" in a["error"]["description"]:
+            stats["timeouts_skipped"] = stats.get("timeouts_skipped", 0) + 1
+            continue
+        b = whole.compile_real(with_lit, opts)
+        done += 1
+        stats["pos_library_" + form] = stats.get("pos_library_" + form, 0) + 1
+        chk.count(("value-lib", json.dumps(with_call)), nontrivial=True)
+        if "error" in a or "error" in b:
+            if ("error" in a) != ("error" in b):
+                failures.append({"what": f"{call} / m.{call} (= {v1!r} / {v2!r}): " + ("the program with the constexpr calls is rejected: " + a["error"]["description"][:150] if "error" in a else "only the literal form is rejected"),
+                                 "src": with_call, "src_literal": with_lit, "opts": opts})
+            continue
+        if a["code"] != b["code"]:
+            failures.append({"what": f"main-file {call} returns {v1!r} and library m.{call} returns {v2!r} in Python, but the program is not compiled like the program with those literals",
+                             "src": with_call, "src_literal": with_lit, "opts": opts, "code": a["code"], "code_literal": b["code"]})
     # -- history: same call text, edited body -----------------------------------------------------------------------------------------
     h1 = whole.compile_real("@constexpr\ndef scale(n):\n    return n * 100 + 2\ndb.Setting = scale(3)\n", whole.default_opts(append_version=False))
     h2 = whole.compile_real("@constexpr\ndef scale(n):\n    return n * 5 + 4\ndb.Setting = scale(3)\n", whole.default_opts(append_version=False))
